@@ -70,14 +70,15 @@ func c20Options(r *rand.Rand, g *recgram.Grammar, v int, forceInject bool) (o re
 }
 
 type c20Meta struct {
-	g     *c20Grammar
-	kind  string // x | ast | syn
-	text  string
-	class string
-	xID   int // for ast and reuse jobs: the x job with the same input and policy (fresh parser)
-	reuse bool
-	syn   []genrun.Event
-	synL  int
+	g      *c20Grammar
+	kind   string // x | ast | syn
+	text   string
+	class  string
+	xID    int // for ast and reuse jobs: the x job with the same input and policy (fresh parser)
+	reuse  bool
+	noinit bool
+	syn    []genrun.Event
+	synL   int
 }
 
 // synStream generates a random well-nested node set over [0,L] and a report
@@ -274,6 +275,8 @@ func c20Generated(c *fw.Ctx) {
 				meta = append(meta, c20Meta{g: g, kind: "x", text: tx[1], class: tx[0]})
 				jobs = append(jobs, genrun.Job{ID: len(jobs), Pkg: g.c.Pkg.Name + ".x", Mode: "parse,reuse", Entry: e, Text: tx[1], EH: pol, MaxEvents: 400*(len(tx[1])+2) + 1000})
 				meta = append(meta, c20Meta{g: g, kind: "x", text: tx[1], class: tx[0], reuse: true, xID: xid})
+				jobs = append(jobs, genrun.Job{ID: len(jobs), Pkg: g.c.Pkg.Name + ".x", Mode: "parse,noinit", Entry: e, Text: tx[1], EH: pol, MaxEvents: 400*(len(tx[1])+2) + 1000})
+				meta = append(meta, c20Meta{g: g, kind: "x", text: tx[1], class: tx[0], reuse: true, noinit: true, xID: xid})
 				if g.ast && e == 0 {
 					jobs = append(jobs, genrun.Job{ID: len(jobs), Pkg: g.c.Pkg.Name + ".ast", Mode: "parse", Text: tx[1], EH: pol})
 					meta = append(meta, c20Meta{g: g, kind: "ast", text: tx[1], class: tx[0], xID: xid})
@@ -325,6 +328,9 @@ func c20Generated(c *fw.Ctx) {
 			if m.reuse {
 				who = "generated-reused-parser"
 			}
+			if m.noinit {
+				who = "generated-reused-parser-without-reinit"
+			}
 			if is := recgram.CheckNesting(t.Events, len(m.text)); is != nil {
 				how := "valid-input"
 				if len(t.EH) > 0 || !t.OK {
@@ -337,7 +343,7 @@ func c20Generated(c *fw.Ctx) {
 				// the log must not depend on what the same Parser object parsed before
 				if ft := res.Traces[m.xID]; ft != nil && ft.Panic == "" {
 					if !eventsEqual(ft.Events, t.Events) || ft.OK != t.OK || len(ft.EH) != len(t.EH) {
-						c.Violate("generated-reused-parser/log-differs-from-fresh-parser", desc()+"\nfresh parser events: "+recgram.EventsString(ft.Events), files)
+						c.Violate(who+"/log-differs-from-fresh-parser", desc()+"\nfresh parser events: "+recgram.EventsString(ft.Events), files)
 						continue
 					}
 					c.Count("reused_parser_logs_identical_to_fresh", 1)
@@ -556,18 +562,21 @@ func c20ShippedCase(c *fw.Ctx, parser string) {
 		}
 		c.Count("shipped_"+parser+"_logs_well_nested", 1)
 		c.Count("events_checked", int64(len(run.Events)))
-		// the same input on the long-lived parser of this case
-		ro := o
-		ro.Reuse = true
-		rrun := recgram.RunShipped(text, ro)
-		if rrun.Panic != "" {
-			c.Violate("shipped-"+parser+"-reused-parser/panic/"+fw.Skeleton(firstLine(rrun.Panic)), desc()+"\n"+rrun.Panic, files)
-		} else if is := recgram.CheckNesting(rrun.Events, len(text)); is != nil {
-			c.Violate(nestSig("shipped-"+parser+"-reused-parser", is, rrun.Events, "any"), is.Detail+"\n"+desc()+"\nreused parser events: "+recgram.EventsString(rrun.Events), files)
-		} else if !eventsEqual(run.Events, rrun.Events) || run.OK != rrun.OK {
-			c.Violate("shipped-"+parser+"-reused-parser/log-differs-from-fresh-parser", desc()+"\nreused parser events: "+recgram.EventsString(rrun.Events), files)
-		} else {
-			c.Count("reused_parser_logs_identical_to_fresh", 1)
+		// the same input on the long-lived parsers of this case (with and without a new Init)
+		for variant, suffix := range []string{"-reused-parser", "-reused-parser-without-reinit"} {
+			ro := o
+			ro.Reuse, ro.NoReinit = variant == 0, variant == 1
+			rrun := recgram.RunShipped(text, ro)
+			who := "shipped-" + parser + suffix
+			if rrun.Panic != "" {
+				c.Violate(who+"/panic/"+fw.Skeleton(firstLine(rrun.Panic)), desc()+"\n"+rrun.Panic, files)
+			} else if is := recgram.CheckNesting(rrun.Events, len(text)); is != nil {
+				c.Violate(nestSig(who, is, rrun.Events, "any"), is.Detail+"\n"+desc()+"\nreused parser events: "+recgram.EventsString(rrun.Events), files)
+			} else if !eventsEqual(run.Events, rrun.Events) || run.OK != rrun.OK {
+				c.Violate(who+"/log-differs-from-fresh-parser", desc()+"\nreused parser events: "+recgram.EventsString(rrun.Events), files)
+			} else {
+				c.Count("reused_parser_logs_identical_to_fresh", 1)
+			}
 		}
 		if len(run.EH) > 0 {
 			c.Count("shipped_"+parser+"_logs_with_recovery", 1)
@@ -632,7 +641,7 @@ func c20Run(c *fw.Ctx) {
 func init() {
 	fw.Register(&fw.Check{
 		ID:          "C20",
-		Rule:        "shipped cases: tm, js (3 dialects, 4 entry points), json, test parsers imported from the repository run on test-suite snippets and repository files, mostly with 1-3 text mutations, 'continue always' handler, each input on fresh and on long-lived Parser/TokenStream/Lexer objects; the recorded listener log must satisfy the trace specification (inside the input, not inverted, pairwise disjoint or nested, strict container after its content; checked with a sorted list of maximal intervals). For tm and js the tree of ast.Parse on the same input is read through the public Node API and compared with the log: same node multiset (+File), every non-empty node below the smallest reported strict container (or chained with nodes of equal range), empty nodes below a node containing their offset (inside the smallest node having it in its interior), siblings in source order. Generated cases: recovery grammars (skeleton and random families of C19) under option vectors inside the property's scope - fixWhitespace with reported comments and invalid tokens (lexer-based and tokenStream parsers) or nothing reported without fixWhitespace; half with eventAST (+fileNode) - (statement forms ending in a nullable nonterminal, also followed by a state marker; every case contains a lexer-based parser without recovery that reports comments and invalid tokens) run on sentences with comments and foreign characters, mutants, garbage, each input on a fresh Parser and on a long-lived one shared by consecutive runs (log must be well nested and equal to the fresh one); same log check; eventAST packages: ast.Parse tree vs. log, and the generated builder fed directly with synthetic well-nested streams in hostile legal orders (disjoint nodes out of source order, delayed leaves, equal-range chains, boundary empties). Non-trivial/distinct: grammar with >=20 logs of >=5 events; shipped input with >=5 events",
+		Rule:        "shipped cases: tm, js (3 dialects, 4 entry points), json, test parsers imported from the repository run on test-suite snippets and repository files, mostly with 1-3 text mutations, 'continue always' handler, each input on fresh and on long-lived Parser/TokenStream/Lexer objects; the recorded listener log must satisfy the trace specification (inside the input, not inverted, pairwise disjoint or nested, strict container after its content; checked with a sorted list of maximal intervals). For tm and js the tree of ast.Parse on the same input is read through the public Node API and compared with the log: same node multiset (+File), every non-empty node below the smallest reported strict container (or chained with nodes of equal range), empty nodes below a node containing their offset (inside the smallest node having it in its interior), siblings in source order. Generated cases: recovery grammars (skeleton and random families of C19) under option vectors inside the property's scope - fixWhitespace with reported comments and invalid tokens (lexer-based and tokenStream parsers) or nothing reported without fixWhitespace; half with eventAST (+fileNode) - (statement forms ending in a nullable nonterminal, also followed by a state marker; every case contains a lexer-based parser without recovery that reports comments and invalid tokens) run on sentences with comments and foreign characters, mutants, garbage, each input on a fresh Parser and on long-lived ones shared by consecutive runs (one re-initialised before each parse, one initialised once) (log must be well nested and equal to the fresh one); same log check; eventAST packages: ast.Parse tree vs. log, and the generated builder fed directly with synthetic well-nested streams in hostile legal orders (disjoint nodes out of source order, delayed leaves, equal-range chains, boundary empties). Non-trivial/distinct: grammar with >=20 logs of >=5 events; shipped input with >=5 events",
 		Assumptions: []string{"the public Node API (Child/Next/Offset/Endoffset/Type) reflects the built tree", "for empty nodes and for nodes of equal range the statement leaves the parent open: any containing parent / either order is accepted"},
 		Cases: func(tier string) int {
 			a, b := c20Layout(tier)
